@@ -159,6 +159,38 @@ func (j *Journal) Shuffle(r *rand.Rand) {
 // SplitTree distributes the directives over an include tree rooted at
 // "main.knut". depth/fanout bound the tree; relative paths use ./x and sub/../y
 // forms. It returns the files and the number of files.
+// SplitWide distributes the directives over a wide two-level include tree:
+// main.knut includes k index files (k = 8..24), each of which includes one to
+// three leaf files; every file, the root included, carries directives.
+func (j *Journal) SplitWide(r *rand.Rand) map[string][]byte {
+	k := 8 + r.Intn(17)
+	type file struct {
+		path  string
+		items []string
+	}
+	files := []*file{{path: "main.knut"}}
+	for i := 0; i < k; i++ {
+		idx := &file{path: fmt.Sprintf("w%d/index.knut", i)}
+		files = append(files, idx)
+		files[0].items = append(files[0].items, fmt.Sprintf("include \"w%d/index.knut\"\n", i))
+		for l := 0; l < 1+r.Intn(3); l++ {
+			leaf := &file{path: fmt.Sprintf("w%d/leaf%d.knut", i, l)}
+			files = append(files, leaf)
+			idx.items = append(idx.items, fmt.Sprintf("include \"leaf%d.knut\"\n", l))
+		}
+	}
+	for _, d := range j.Dirs {
+		f := files[r.Intn(len(files))]
+		pos := r.Intn(len(f.items) + 1)
+		f.items = append(f.items[:pos], append([]string{RenderDir(d)}, f.items[pos:]...)...)
+	}
+	res := map[string][]byte{}
+	for _, f := range files {
+		res[f.path] = []byte(strings.Join(f.items, "\n") + "\n")
+	}
+	return res
+}
+
 func (j *Journal) SplitTree(r *rand.Rand, maxDepth, maxFanout int) map[string][]byte {
 	type node struct {
 		path     string // path relative to root dir
